@@ -123,6 +123,10 @@ class EpochSamplerH(Harness):
                     items = list(a)
                 lb_after = len(a)
                 b = self._mk(D, n, int(e0))
+                if c.get("peek"):   # asking for another epoch's samples (as a length computation or a look-ahead does) must not change the current epoch's order
+                    list(b.get_samples_for_epoch(int(e0) + 1))
+                    if int(e0) > 0:
+                        list(b.get_samples_for_epoch(0))
                 items_b = list(b)
                 out["per_rank"].append(dict(len=la, len_after=lb_after, it=items, it_b=items_b, len_b=len(b), total=a.total))
             if Wc is None:
@@ -208,7 +212,7 @@ META = dict(
         "exactly for indivisible sizes under 'raise', full epoch under 'ignore', len() == number yielded (before and after iterating), and the epoch-e "
         "order identical whether reached by iteration from 0 or by init_epoch=e."),
     bounds=dict(quick="N in 0..7, world size 1..3, every rank, epochs 0..2, four modes, both samplers",
-                thorough="N in 0..12, world size 1..4, every rank, epochs 0..3, four modes, both samplers, two seeds"),
+                thorough="N in 0..10, world size 1..4, every rank, epochs 0..3, four modes, both samplers, two seeds; look-ahead/look-back (get_samples_for_epoch of another epoch) before iterating"),
     assumptions=["numpy RandomState(seed).permutation(n) is a permutation of range(n) and a function of (seed, n) only (stub; the real generator is used in replay)",
                  "torch.distributed replaced by a stub returning (rank, world)"],
     outside=["numpy's generator itself", "real process groups"],
@@ -224,5 +228,7 @@ def tasks(tier):
         for mode in ("raise", "drop", "uneven", "ignore"):
             seeds = [3] if q or kind == "sequential" else [3, 11]
             for seed in seeds:
-                ts.append(task(PROP, M_, "EpochSamplerH", kind=kind, mode=mode, Nmax=7 if q else 12, Wmax=3 if q else 4, Emax=2 if q else 3, seed=seed, nvalidate=1))
+                ts.append(task(PROP, M_, "EpochSamplerH", kind=kind, mode=mode, Nmax=7 if q else 10, Wmax=3 if q else 4, Emax=2 if q else 3, seed=seed, nvalidate=1))
+    for mode in ("uneven", "drop") if q else ("raise", "drop", "uneven", "ignore"):
+        ts.append(task(PROP, M_, "EpochSamplerH", kind="random", mode=mode, Nmax=5 if q else 8, Wmax=2 if q else 3, Emax=2, seed=5, peek=True, nvalidate=1))
     return ts
